@@ -185,8 +185,9 @@ func fanoutStageRule(o *Ob) {
 			for _, in2 := range AllInstrs(callee) {
 				st, ok := in2.(*ssa.Store)
 				if ok && rootsInFreeVar(st.Addr) && e.DerivesFrom(st.Val, true, func(v ssa.Value) bool { return v == ssa.Value(par) }) {
-					// every path of the recorder stores it
-					if len((&Walk{Fn: callee, Barrier: IsInstr(st)}).FromEntry().Returns()) == 0 {
+					// every path of the recorder stores it (a recorder may return at once when there is no error)
+					isErr := L("("+e.X(callee, par)+" == nil)", false)
+					if len((&Walk{Fn: callee, Barrier: IsInstr(st), Cut: e.CutContradicting(isErr)}).FromEntry().Returns()) == 0 {
 						errStores = append(errStores, c)
 						recParams = append(recParams, par)
 						o.Site(c, "records the error through "+fnName(callee))
